@@ -66,8 +66,8 @@ prop("C03",
 import itertools
 
 
-def _bc(n, panics=(), extend=False, bomb=False):
-    return {"n": n, "panics": list(panics), "extend": extend, "bomb": bomb}
+def _bc(n, panics=(), extend=False, bomb=False, caller=0):
+    return {"n": n, "panics": list(panics), "extend": extend, "bomb": bomb, "caller": caller}
 
 
 def _pool(history, pb=None):
@@ -101,7 +101,16 @@ def pool_scenarios(tier):
     out.append(_pool([_bc(2, (0,), bomb=True)]))
     out.append(_pool([_bc(2, (0, 2), bomb=True), _bc(1)]))
     out.append(_pool([_bc(1, (0,), extend=True, bomb=True)]))
+    # broadcasts issued by different threads on the same pool (sequentially)
+    out.append(_pool([_bc(1), _bc(1, caller=1)]))
+    out.append(_pool([_bc(1, caller=1), _bc(1)]))
+    out.append(_pool([_bc(1), _bc(2, caller=1)], pb=3))
+    out.append(_pool([_bc(2, caller=1), _bc(1)], pb=3))
+    out.append(_pool([_bc(1, caller=1), _bc(1, caller=1)]))
     if tier == "thorough":
+        out.append(_pool([_bc(1), _bc(2, caller=1)]))
+        out.append(_pool([_bc(2), _bc(2, caller=1)], pb=3))
+        out.append(_pool([_bc(1, caller=1), _bc(0), _bc(1, caller=1)]))
         for h in itertools.product((0, 1, 2), repeat=3):
             out.append(_pool([_bc(n) for n in h], pb=None if sum(h) <= 4 else 3))
         out.append(_pool([_bc(3)]))
